@@ -20,6 +20,7 @@ import (
 	"strings"
 	"sync"
 	"sync/atomic"
+	"syscall"
 	"testing"
 	"time"
 
@@ -107,6 +108,7 @@ func Pick(q, t int) int {
 
 var (
 	caseStart   atomic.Int64 // unix nanos of the running case, 0 when idle
+	caseCPU     atomic.Int64 // CPU time (nanos) the process had used when the running case started
 	journalMu   sync.Mutex
 	journalFile *os.File
 	journalName atomic.Value // string: sub name of the running case
@@ -117,7 +119,21 @@ func watchdogLimit() time.Duration {
 	if v, err := strconv.Atoi(os.Getenv("VERIF_WATCHDOG_S")); err == nil && v > 0 {
 		return time.Duration(v) * time.Second
 	}
-	return 30 * time.Second
+	return 60 * time.Second
+}
+
+// cpuTime is the CPU time (user+system) this process has used so far.
+func cpuTime() time.Duration {
+	var ru syscall.Rusage
+	if err := syscall.Getrusage(syscall.RUSAGE_SELF, &ru); err != nil {
+		return 0
+	}
+	return time.Duration(ru.Utime.Nano() + ru.Stime.Nano())
+}
+
+func markCaseStart() {
+	caseCPU.Store(int64(cpuTime()))
+	caseStart.Store(time.Now().UnixNano())
 }
 
 func startWatchdog() {
@@ -129,13 +145,15 @@ func startWatchdog() {
 			if st == 0 {
 				continue
 			}
-			if time.Since(time.Unix(0, st)) > limit {
+			// the limit is CPU time used since the case started (a busy machine slows a case down without it being
+			// stuck); a case that is blocked without using the CPU is caught by a wall-clock limit 20 times as long
+			if cpuTime()-time.Duration(caseCPU.Load()) > limit || time.Since(time.Unix(0, st)) > 20*limit {
 				// the journal already holds the case; mark the hang and leave
 				c := Env()
 				name, _ := journalName.Load().(string)
 				raw, _ := curCase.Load().([]byte)
 				writeCaseFile(filepath.Join(c.OutDir, fmt.Sprintf("hang-%d.json", c.Shard)), name, raw,
-					fmt.Sprintf("case did not finish within %v", limit))
+					fmt.Sprintf("case did not finish within %v of CPU time (or %v of wall time)", limit, 20*limit))
 				buf := make([]byte, 1<<16)
 				n := runtime.Stack(buf, true)
 				os.WriteFile(filepath.Join(c.OutDir, fmt.Sprintf("hang-%d.stack", c.Shard)), buf[:n], 0o644)
@@ -233,23 +251,23 @@ func (r *R) Excluded(id string) { r.excluded = append(r.excluded, id) }
 
 // Stats is what one shard reports for one sub-check.
 type Stats struct {
-	Sub         string           `json:"sub"`
-	Shard       int              `json:"shard"`
-	Mode        string           `json:"mode"` // rapid | enum
-	Requested   int64            `json:"requested"`
-	Evaluations int64            `json:"evaluations"`
-	Discarded   int64            `json:"discarded"`
-	NonTrivial  int64            `json:"nontrivial"`
-	Distinct    int64            `json:"distinct_nontrivial_shard"`
-	Exhaustive  bool             `json:"exhaustive"`
-	EnumTotal   int64            `json:"enum_total,omitempty"`
-	Classes     map[string]int64 `json:"classes,omitempty"`
-	Excluded    map[string]int64 `json:"excluded_known,omitempty"`
+	Sub         string            `json:"sub"`
+	Shard       int               `json:"shard"`
+	Mode        string            `json:"mode"` // rapid | enum
+	Requested   int64             `json:"requested"`
+	Evaluations int64             `json:"evaluations"`
+	Discarded   int64             `json:"discarded"`
+	NonTrivial  int64             `json:"nontrivial"`
+	Distinct    int64             `json:"distinct_nontrivial_shard"`
+	Exhaustive  bool              `json:"exhaustive"`
+	EnumTotal   int64             `json:"enum_total,omitempty"`
+	Classes     map[string]int64  `json:"classes,omitempty"`
+	Excluded    map[string]int64  `json:"excluded_known,omitempty"`
 	Samples     []json.RawMessage `json:"samples,omitempty"`
-	Failed      bool             `json:"failed"`
-	Done        bool             `json:"done"`
-	WallS       float64          `json:"wall_s"`
-	Rule        string           `json:"rule,omitempty"`
+	Failed      bool              `json:"failed"`
+	Done        bool              `json:"done"`
+	WallS       float64           `json:"wall_s"`
+	Rule        string            `json:"rule,omitempty"`
 }
 
 type collector struct {
@@ -399,7 +417,7 @@ func (s *Sub[C]) one(col *collector, c C) error {
 	}
 	curCase.Store(raw)
 	journalName.Store(s.Name)
-	caseStart.Store(time.Now().UnixNano())
+	markCaseStart()
 	r := &R{}
 	err := s.exec(c, r)
 	caseStart.Store(0)
@@ -515,7 +533,7 @@ func ReplayMain(t *testing.T) {
 	}
 	journalName.Store(cf.Sub)
 	curCase.Store([]byte(cf.Case))
-	caseStart.Store(time.Now().UnixNano())
+	markCaseStart()
 	err = f(cf.Case)
 	caseStart.Store(0)
 	if err != nil {
